@@ -107,3 +107,14 @@ C("C17", "TestC17", P(400, env={"VERIF_C17_MAXLEN": 4}), P(1500, 16, 2400, env={
   level_note="The chooser is reached through an exported wrapper added to the scratch copy only; sizes >= 1 (a table is never empty).",
   assumptions=["table sizes are >= 1 and their sum fits in 64 bits", "single writer, identical-size transaction tables (verified at run time; the bounds are not asserted otherwise)"],
   exhaustive_part="all size vectors up to the stated length over the 12 representative sizes")
+
+C("C14", "TestC14", P(3000), P(20000, 16, 1500), level="translation_validation",
+  rule="each emitted table file is one program: 3/4 of the cases are C01-style generated tables (bytes from the writer), 1/4 are C07-style stack histories whose every new *.ref file (written by Add or by compaction) is read from disk; "
+       "each file is decoded by specdec, an independent decoder written from the format specification that walks the file sequentially and validates header/footer/CRC, section positions, block types/lengths/padding, restart tables, key order, "
+       "every index level (entries == last key + position of each child, children == all blocks of the level below), the object index (prefix length, exact ref-block lists, completeness) and update-index range, "
+       "then its records are compared with the source records (for compaction outputs: the raw overlay of the inputs, tombstones optionally dropped when the range starts at the oldest table); "
+       "non-trivial = file with >= 2 blocks; distinct = hash of the case JSON",
+  technique="translation validation by an independent decoder (specdec) over property-based generated tables and stack histories",
+  level_text="Every generated output file is validated against its source records by a decoder that shares no code with the repository; a symmetric writer/reader change cannot pass. " + BOUNDED,
+  level_note="Trusted base: specdec (about 600 lines, Go standard library only: compress/zlib, hash/crc32) and its reading of the specification; whether a file is padded is told to it by the harness (the header does not record it).",
+  assumptions=[DOMAIN, "the decoder's reading of the reftable specification (reftable.md of JGit/git) is right"])
